@@ -37,85 +37,179 @@ def k5_trunc(n, t):
     return n[t:]
 
 
-def _clauses(ctx, P, res, memb, i=None):
-    """the clauses for one side.  Without `i`: the postconditions.  With `i`: the loop invariant after the first i groups
-    (K = list of group names), which speaks about the ghost map `owner` (glyph -> full name of the kept group it is in)
-    instead of composing / decomposing group names (no string reasoning under quantifiers)."""
-    G = f"{ctx}.font.groups"
-    gs = f"{ctx}.glyphSet"
-    T = len(P)
-    pr = "(" + G + "[{n}] & " + gs + ")"  # members of group n that are exported glyphs
-    cl = {
-        # every kept group is a prefixed UFO group with at least one exported member; its class is exactly the exported
-        # members, sorted
-        "kept": f"all(n.startswith('{P}') and n in {G} and {pr.format(n='n')} != set() and {res}[n] == sorted({pr.format(n='n')}) for n in set({res}))",
+def _names(ctx, k):
+    P = P1 if k == 1 else P2
+    return P, len(P), f"{ctx}.font.groups", f"{ctx}.glyphSet", f"side{k}Groups", f"side{k}Membership"
+
+
+# ---- aspect "kept": which groups are kept and what their classes are -------------------------------------------------
+
+
+def _kept(ctx, k, res):
+    P, T, G, gs, _, _ = _names(ctx, k)
+    pr = f"({G}[n] & {gs})"  # members of group n that are exported glyphs
+    # every kept group is a prefixed UFO group with at least one exported member; its class is exactly the exported
+    # members, sorted
+    return f"all(n.startswith('{P}') and n in {G} and {pr} != set() and list({res}[n]) == sorted({pr}) for n in set({res}))"
+
+
+# ---- aspect "own": membership maps vs. kept groups (gives disjointness) ---------------------------------------------------
+
+
+def _own_inv(ctx, k):
+    """loop invariant in terms of the ghost maps owner (glyph -> full name of the kept group it is in) and tn (kept group ->
+    truncated name): group names are never composed / decomposed under a quantifier"""
+    P, T, G, gs, res, memb = _names(ctx, k)
+    o, tn = f"owner{k}", f"tn{k}"
+    return {
+        f"own-dom.{k}": f"all(g in {memb} for g in set({o})) and all(g in {o} for g in set({memb}))",
+        f"own-sound.{k}": f"all({o}[g] in {res} and g in {G}[{o}[g]] and g in {gs} and {memb}[g] == {tn}[{o}[g]] for g in set({o}))",
+        f"own-complete.{k}": f"all(all(implies(g in {gs}, g in {o} and {o}[g] == n) for g in {G}[n]) for n in set({res}))",
+        f"trunc.{k}": f"all(n in {tn} and {tn}[n] == k5_trunc(n, {T}) for n in set({res}))",
     }
-    if i is None:
+
+
+def _own_post(ctx, k):
+    P, T, G, gs, _, m = _names(ctx, k)
+    res, memb = f"result[{k - 1}]", f"{ctx}.{m}"
+    return {
         # every exported member of a kept group is mapped to that group's truncated name ...
-        cl["member-complete"] = f"all(all(implies(g in {gs}, g in {memb} and {memb}[g] == k5_trunc(n, {T})) for g in {G}[n]) for n in set({res}))"
+        f"member-complete.{k}": f"all(all(implies(g in {gs}, g in {memb} and {memb}[g] == k5_trunc(n, {T})) for g in {G}[n]) for n in set({res}))",
         # ... and every entry of the membership map comes from a kept group containing the glyph
-        cl["member-sound"] = f"all(g in {gs} and any(g in {G}[n] and k5_trunc(n, {T}) == {memb}[g] for n in set({res})) for g in set({memb}))"
+        f"member-sound.{k}": f"all(g in {gs} and any(g in {G}[n] and k5_trunc(n, {T}) == {memb}[g] for n in set({res})) for g in set({memb}))",
         # the kept groups of one side are pairwise disjoint: "the group of a glyph" is well defined
-        cl["disjoint"] = f"all(all(implies(n != m, all(not (g in {gs} and g in {G}[m]) for g in {G}[n])) for m in set({res})) for n in set({res}))"
-        # a prefixed group with exported members is dropped only if it overlaps a kept one
-        cl["dropped-overlap"] = f"all(implies(n.startswith('{P}') and {pr.format(n='n')} != set(), n in {res} or ({pr.format(n='n')} & set({memb})) != set()) for n in set({G}))"
-    else:
-        cl["own-dom"] = f"all(g in {memb} for g in set(owner)) and all(g in owner for g in set({memb}))"
-        cl["own-sound"] = f"all(owner[g] in {res} and g in {G}[owner[g]] and g in {gs} and {memb}[g] == tn[owner[g]] for g in set(owner))"
-        # tn: kept group -> its truncated name (the only place where a name is taken apart)
-        cl["trunc"] = f"all(n in tn and tn[n] == k5_trunc(n, {T}) for n in set({res}))"
-        cl["own-complete"] = f"all(all(implies(g in {gs}, g in owner and owner[g] == n) for g in {G}[n]) for n in set({res}))"
-        cl["dropped-overlap"] = f"all(implies(K[a].startswith('{P}') and {pr.format(n='K[a]')} != set(), K[a] in {res} or ({pr.format(n='K[a]')} & set({memb})) != set()) for a in range({i}))"
-    return cl
+        f"disjoint.{k}": f"all(all(implies(n != m, all(not (g in {gs} and g in {G}[m]) for g in {G}[n])) for m in set({res})) for n in set({res}))",
+    }
 
 
-def _groups_contract(target, ctx, params, k):
-    """one contract variant per side k (1: public.kern1 / first glyph, 2: public.kern2 / second glyph): the two halves of
-    the loop body are independent, and each proof only carries its own side's invariants"""
-    P, m = (P1, "side1Membership") if k == 1 else (P2, "side2Membership")
-    M = f"side{k}Membership"
-    memb_loop = Loop(done="D", invariants={
-        "old-memb": f"all(g in {M} and {M}[g] == m0[g] for g in set(m0))",
-        "old-owner": "all(g in owner and owner[g] == o0[g] for g in set(o0))",
-        "new-added": f"all(g in {M} and {M}[g] == name_truncated and g in owner and owner[g] == name for g in D)",
-        "tn": "name in tn and tn[name] == name_truncated",
-        "only-memb": f"all(g in m0 or g in D for g in set({M}))",
-        "only-owner": "all(g in o0 or g in D for g in set(owner))",
+def _own_member_loop(k):
+    M, o, m0, o0 = f"side{k}Membership", f"owner{k}", f"m{k}0", f"o{k}0"
+    return Loop(done="D", invariants={
+        "old-memb": f"all(g in {M} and {M}[g] == {m0}[g] for g in set({m0}))",
+        "old-owner": f"all(g in {o} and {o}[g] == {o0}[g] for g in set({o0}))",
+        "new-added": f"all(g in {M} and {M}[g] == name_truncated and g in {o} and {o}[g] == name for g in D)",
+        "only-memb": f"all(g in {m0} or g in D for g in set({M}))",
+        "only-owner": f"all(g in {o0} or g in D for g in set({o}))",
         # the members being added were in no group before (the `if known_members: ... continue` guard)
-        "new-not-memb": "all(g not in m0 for g in members)",
-        "new-not-owned": "all(g not in o0 for g in members)",
+        "new-not-memb": f"all(g not in {m0} for g in members)",
+        "new-not-owned": f"all(g not in {o0} for g in members)",
     })
-    return contract(
-        target,
-        name=f"side{k}",
-        props=["C05"],
-        params=params,
-        returns=Tuple(GROUPS, GROUPS),
-        modifies=["KGCtx.side1Membership", "KGCtx.side2Membership"],
-        ensures=_clauses(ctx, P, f"result[{k - 1}]", f"{ctx}.{m}"),
-        canaries={"keeps-every-group": f"len(result[{k - 1}]) == len({ctx}.font.groups)"},
-        locals={"side1Groups": GROUPS, "side2Groups": GROUPS, "side1Membership": Dict(STR, STR), "side2Membership": Dict(STR, STR),
-                "members": Set(STR), "known_members": Set(STR), "original_name_truncated": STR},
-        # ghost: owner = glyph -> full name of the kept group that contains it; tn = kept group -> its truncated name;
-        # m0 / o0 = snapshots before the member loop
-        ghost_vars={"owner": (Dict(STR, STR), "{}"), "m0": (Dict(STR, STR), "{}"), "o0": (Dict(STR, STR), "{}"), "tn": (Dict(STR, STR), "{}")},
-        ghost={
-            f"side{k}Groups[name] = tuple(sorted(members))": [f"m0 = {{**{M}}}", "o0 = {**owner}", "tn = {**tn, name: name_truncated}"],
-            f"side{k}Membership[member] = name_truncated": ["owner = {**owner, member: name}"],
-        },
+
+
+# ---- aspect "drop": a candidate group is dropped only because it overlaps a kept one ----------------------------------------
+
+
+def _drop_inv(ctx, k):
+    P, T, G, gs, res, memb = _names(ctx, k)
+    w = f"wit{k}"
+    return {
+        # a prefixed group with an exported member that is not kept was dropped because of an overlap: wit names a glyph
+        # of it that was already a member of a kept group (ghost witness, recorded in the loop over known_members)
+        f"dropped-overlap.{k}": f"all(all(implies(g in {gs} and K[a].startswith('{P}'), K[a] in {res} or K[a] in {w}) for g in {G}[K[a]]) for a in range(i))",
+        f"witness.{k}": f"all(n in {G} and {w}[n] in {G}[n] and {w}[n] in {gs} and {w}[n] in {memb} for n in set({w}))",
+    }
+
+
+def _drop_post(ctx, k):
+    P, T, G, gs, _, m = _names(ctx, k)
+    res, memb = f"result[{k - 1}]", f"{ctx}.{m}"
+    n = f"list({G})[a]"
+    # a prefixed group with exported members is dropped only if one of them is already in a kept group
+    return {f"dropped-overlap.{k}": f"all(implies({n}.startswith('{P}') and ({G}[{n}] & {gs}) != set(), {n} in {res} or any(g in {gs} and g in {memb} for g in {G}[{n}])) for a in range(len({G})))"}
+
+
+def _drop_known_loop(k):
+    w, w0 = f"wit{k}", f"w{k}0"
+    return Loop(done="D", invariants={
+        "wit-old": f"all(n in {w} and (n == name or {w}[n] == {w0}[n]) for n in set({w0}))",
+        "wit-only": f"all(n in {w0} or n == name for n in set({w}))",
+        "wit-new": f"D == set() or (name in {w} and {w}[name] in known_members)",
+    })
+
+
+def _drop_member_loop(k):
+    M, m0 = f"side{k}Membership", f"m{k}0"
+    return Loop(done="D", invariants={"dom-grows": f"all(g in {M} for g in set({m0}))"})
+
+
+_LOCALS = {"side1Groups": GROUPS, "side2Groups": GROUPS, "side1Membership": Dict(STR, STR), "side2Membership": Dict(STR, STR),
+           "members": Set(STR), "known_members": Set(STR), "original_name_truncated": STR}
+_OUTER = "for (name, members) in font.groups.items()"
+_PRUNE_HINT = {"members = {g for g in members if g in allGlyphs}": ["members == font.groups[name] & allGlyphs"]}
+_DD = Dict(STR, STR)
+
+
+def _groups_contracts(target, ctx, params):
+    """Three contract variants per function, one per aspect (each carries only the invariants it needs: with all of them
+    in one proof the solvers' quantifier instantiation does not finish)."""
+    common = dict(props=["C05"], params=params, returns=Tuple(GROUPS, GROUPS), locals=_LOCALS, merge_branches=False,
+                  modifies=["KGCtx.side1Membership", "KGCtx.side2Membership"])
+    # (1) kept
+    contract(
+        target, name="kept", **common,
+        ensures={f"kept.{k}": _kept(ctx, k, f"result[{k - 1}]") for k in (1, 2)},
+        canaries={"keeps-every-group": f"len(result[0]) + len(result[1]) == len({ctx}.font.groups)"},
         # the pruning comprehension is the intersection with the exported glyph set (proved once, then used under sorted())
-        hints={"members = {g for g in members if g in allGlyphs}": ["members == font.groups[name] & allGlyphs"],
-               # element-wise reading of the overlap test (so that `not known_members` can be used glyph by glyph)
-               f"known_members = members.intersection(side{k}Membership.keys())": [f"all(iff(g in known_members, g in {M}) for g in members)"],
-               # the truncated name, under the name used by the quantified clauses
-               f"name_truncated = name[len(SIDE{k}_PREFIX):]": [f"name_truncated == k5_trunc(name, {len(P1)})"]},
-        loops={
-            "for (name, members) in font.groups.items()": Loop(index="i", seq="K", invariants=_clauses(ctx, P, f"side{k}Groups", M, i="i")),
-            f"for member in members#{k}": memb_loop,
-        },
+        hints=dict(_PRUNE_HINT),
+        loops={_OUTER: Loop(index="i", seq="K", invariants={f"kept.{k}": _kept(ctx, k, f"side{k}Groups") for k in (1, 2)})},
     )
+    # (2) own
+    ghost_vars, ghost, hints, loops, inv, post = {}, {}, {}, {}, {}, {}
+    for k in (1, 2):
+        M = f"side{k}Membership"
+        ghost_vars.update({f"owner{k}": (_DD, "{}"), f"tn{k}": (_DD, "{}"), f"m{k}0": (_DD, "{}"), f"o{k}0": (_DD, "{}")})
+        ghost[f"side{k}Groups[name] = tuple(sorted(members))"] = [f"m{k}0 = {{**{M}}}", f"o{k}0 = {{**owner{k}}}", f"tn{k} = {{**tn{k}, name: name_truncated}}"]
+        ghost[f"{M}[member] = name_truncated"] = [f"owner{k} = {{**owner{k}, member: name}}"]
+        # element-wise reading of the overlap test (so that `not known_members` can be used glyph by glyph)
+        hints[f"known_members = members.intersection({M}.keys())"] = [f"all(iff(g in known_members, g in {M}) for g in members)"]
+        # the truncated name, under the name used by the quantified clauses
+        hints[f"name_truncated = name[len(SIDE{k}_PREFIX):]"] = [f"name_truncated == k5_trunc(name, {len(P1)})"]
+        loops[f"for member in members#{k}"] = _own_member_loop(k)
+        inv.update(_own_inv(ctx, k))
+        post.update(_own_post(ctx, k))
+    loops[_OUTER] = Loop(index="i", seq="K", invariants=inv)
+    contract(target, name="own", **common, ensures=post,
+             canaries={"everything-a-member": f"all(g in {ctx}.side1Membership for g in {ctx}.glyphSet)"},
+             ghost_vars=ghost_vars, ghost=ghost, hints=hints, loops=loops)
+    # (3) drop
+    ghost_vars, ghost, loops, inv, post = {}, {}, {}, {}, {}
+    for k in (1, 2):
+        M = f"side{k}Membership"
+        ghost_vars.update({f"wit{k}": (_DD, "{}"), f"w{k}0": (_DD, "{}"), f"m{k}0": (_DD, "{}")})
+        ghost[f"known_members = members.intersection({M}.keys())"] = [f"w{k}0 = {{**wit{k}}}"]
+        ghost[f"original_name_truncated = {M}[glyph_name]"] = [f"wit{k} = {{**wit{k}, name: glyph_name}}"]
+        ghost[f"side{k}Groups[name] = tuple(sorted(members))"] = [f"m{k}0 = {{**{M}}}"]
+        loops[f"for glyph_name in known_members#{k}"] = _drop_known_loop(k)
+        loops[f"for member in members#{k}"] = _drop_member_loop(k)
+        inv.update(_drop_inv(ctx, k))
+        post.update(_drop_post(ctx, k))
+    loops[_OUTER] = Loop(index="i", seq="K", invariants=inv)
+    contract(target, name="drop", **common, ensures=post,
+             canaries={"nothing-dropped": f"len(result[0]) + len(result[1]) == len({ctx}.font.groups)"},
+             ghost_vars=ghost_vars, ghost=ghost, loops=loops)
 
 
-for _k in (1, 2):
-    _groups_contract("ufo2ft.featureWriters.kernFeatureWriter:KernFeatureWriter.getKerningGroups", "self.context", {"self": Ref("KGWriter")}, _k)
-    _groups_contract("ufo2ft.featureWriters.kernFeatureWriter2:get_kerning_groups", "context", {"context": Ref("KGCtx")}, _k)
+_groups_contracts("ufo2ft.featureWriters.kernFeatureWriter:KernFeatureWriter.getKerningGroups", "self.context", {"self": Ref("KGWriter")})
+_groups_contracts("ufo2ft.featureWriters.kernFeatureWriter2:get_kerning_groups", "context", {"context": Ref("KGCtx")})
+
+
+# ---- run-time harness (real writers on generated UFOs: overlapping definitions, skipped glyphs, foreign prefixes) ----------
+
+
+def _groups_cases(rng, n):
+    from vcheck.hooks import c05 as h
+
+    return [h.groups_case(rng, k) for k in range(n)]
+
+
+def _groups_build1(case):
+    return {"self": c05._writer_for(case)}
+
+
+def _groups_build2(case):
+    return {"context": c05._writer_for(case).context}
+
+
+for _v in ("kept", "own", "drop"):
+    CONTRACTS[f"ufo2ft.featureWriters.kernFeatureWriter:KernFeatureWriter.getKerningGroups#{_v}"].runtime = Runtime(_groups_cases, _groups_build1)
+    CONTRACTS[f"ufo2ft.featureWriters.kernFeatureWriter2:get_kerning_groups#{_v}"].runtime = Runtime(_groups_cases, _groups_build2)
